@@ -25,6 +25,7 @@ pub struct Profile {
     pub w_new_arena: u32,
     pub w_drop_arena: u32,
     pub w_drop_fault: u32,
+    pub w_plain_root: u32,
     pub w_sweep_fault: u32,
     pub w_drop_unwinding: u32,
     pub w_settle: u32,
@@ -73,6 +74,7 @@ impl Profile {
             w_new_arena: 0,
             w_drop_arena: 0,
             w_drop_fault: 0,
+            w_plain_root: 0,
             w_sweep_fault: 0,
             w_drop_unwinding: 0,
             w_settle: 4,
@@ -237,11 +239,13 @@ pub fn step_strategy(p: &Profile) -> BoxedStrategy<Step> {
         (p.w_map_root, (arena(), any::<bool>(), if p.w_cb_panic > 0 { outcome() } else { Just(Outcome::Ok).boxed() }, ops(p, false)).prop_map(|(arena, fallible, outcome, ops)| Step::MapRoot { arena, fallible, outcome, ops }).boxed()),
         (p.w_handle, any::<u8>().prop_map(|h| Step::CloneHandle { h }).boxed()),
         (p.w_handle / 2, (any::<u8>(), any::<u8>()).prop_map(|(dst, src)| Step::CloneFromHandle { dst, src }).boxed()),
+        (p.w_handle / 3, any::<u8>().prop_map(|h| Step::DropHandleUnwinding { h }).boxed()),
         (p.w_handle, any::<u8>().prop_map(|h| Step::DropHandle { h }).boxed()),
         (p.w_trace_panic, (0u8..24).prop_map(|k| Step::ArmTracePanic { k }).boxed()),
         (p.w_new_arena, (any::<u8>(), any::<bool>(), if p.w_cb_panic > 0 { outcome() } else { Just(Outcome::Ok).boxed() }, ops(p, false)).prop_map(|(preset, fallible, outcome, ops)| Step::NewArena { preset, fallible, outcome, ops }).boxed()),
         (p.w_drop_arena, arena().prop_map(|arena| Step::DropArena { arena }).boxed()),
         (p.w_drop_fault, (1u8..24).prop_map(|k| Step::ArmDropPanic { k }).boxed()),
+        (p.w_plain_root, (any::<u8>(), any::<u8>()).prop_map(|(root, variant)| Step::PlainRootProtocol { root, variant }).boxed()),
         (p.w_sweep_fault, (0u8..12).prop_map(|k| Step::ArmSweepPanic { k }).boxed()),
         (p.w_drop_unwinding, arena().prop_map(|arena| Step::DropArenaUnwinding { arena }).boxed()),
         (p.w_settle, arena().prop_map(|arena| Step::Settle { arena }).boxed()),
